@@ -124,6 +124,26 @@ let handle (f : string array) : string =
       show (fun () -> "ok")
         (M.verify (fun c -> fst certs.(c)) (fun c -> snd certs.(c)) hash_sum parse_octets marshal check p7)
     end
+  | "SEL" ->
+    (* recipient selection: Decrypt of P7Model over the rewritten recipient list; the wrapped key of an entry is
+       modelled by its verdict ([1]: opens with our key, [0]: does not); identity content cipher over pad(content) *)
+    let content = bytes_of_hex f.(4) in
+    let ident s = match String.split_on_char ':' s with
+      | serial :: issuer :: rest -> (z_of_hex serial, bytes_of_hex issuer, rest)
+      | _ -> failwith "bad ident" in
+    let (cs, ci, _) = ident f.(5) in
+    let recips = List.map (fun e ->
+        let (s, i, rest) = ident e in
+        { M.ri_ias = { M.ias_issuer = i; M.ias_serial = s };
+          M.ri_encryptedKey = [if rest = ["K"] then n_of_int 1 else N0] }) (split ',' f.(6)) in
+    (match M.pad content (nat_of_int 8) with
+     | M.Ok padded ->
+       let env = { M.ed_recipients = recips;
+                   M.ed_eci = { M.e_alg = M.DESCBC; M.e_params = List.init 8 (fun _ -> N0); M.e_icvlen = O; M.e_content = padded } } in
+       let unwrap () k = if k = [n_of_int 1] then M.Ok k else M.Err O in
+       show (fun out -> if out = content then "ok" else "diff")
+         (M.decrypt (fun () -> cs) (fun () -> ci) unwrap (fun _ _ ct -> ct) (fun _ _ _ -> None) (fun _ _ -> true) env () ())
+     | _ -> "BADCASE")
   | "E" | "S" | "P" | "PC" | "SC" | "EC" | "K" | "PW" | "PL" | "KDS" -> "SKIP"
   | _ -> "BADCASE"
 
